@@ -107,10 +107,15 @@ def generate(seed, tier, index=None):
         frags = [f for f in frags if f['ctg'] != ci] + [o]
     params = {'method': method, 'encoded': w.random() < 0.7, 'lib': 'LIB', 'stale': stale, 'tier': tier, 'no_rejects': no_rejects, 'special_layout': special,
               # the input's index was left over from an earlier version of the file (N simulated seconds older) in two of the eight rotations
-              'index_state': [['stale', 'stale-empty'][(h // 8 + h) % 2], w.choice([1, 30, 3600])] if h % 8 in (2, 5) else None,
+              'index_state': ([['stale', 'stale-empty'][(h // 8 + h) % 2], w.choice([1, 30, 3600])] if h % 16 != 2 else ['no-unplaced-count']) if h % 8 in (2, 5) else None,
               # initial state: what a lifetime on ANOTHER input left in the same directory under the same -o (a library whose genome has a contig
               # beyond the 2^29 limit of BAI indices, CSI-indexed, with a read out there)
               'prior_other': h % 16 in (4, 9, 10)}
+    if params['index_state'] == ['no-unplaced-count'] and frags:
+        if not any(f.get('defect') == 'unplaced' for f in frags):
+            frags[-1]['defect'] = 'unplaced'        # that index state only matters for reads without coordinates,
+        if special != 'tail-rejects':
+            params['no_rejects'] = False            # which a default run must keep
     mode = {'mp': mp, 'no_rejects': params['no_rejects'], 'isolation': 'fork' if (mp and (h >> 3) % 2) else 'inproc', 'name': 'multi' if mp else 'single', 'width': st.schedule.randint(1, 3), 'schedule': {'policy': 'seeded'}, 'seed': seed}
     return {'params': params, 'genome': genome, 'workload': frags, 'mode': mode}   # 'plans' absent -> enumerated by execute()
 
